@@ -26,6 +26,12 @@ RULE = (
 REAL = ["place_objects", "apply_params", "run_fdtd", "checkpointed_fdtd", "custom_fdtd_forward", "ArrayContainer.reset", "forward", "progress io_callback"]
 STUB = ["durable storage = host numpy copy + pytree flatten/unflatten", "tqdm disabled"]
 ASSUMPTIONS = ["float64; equality criterion 1e-12 relative to the per-array max (bitwise equality is counted separately)", "XLA CPU single-threaded"]
+TECHNIQUE = "deterministic simulation: seeded cut/resume, crash-at-tick, reset and dirty-restart schedules against a monolithic reference run"
+LEVEL_TEXT = (
+    "Seeded search over scenes x split/crash/reset schedules; per scene every single cut point is enumerated. "
+    "A clean batch is evidence that state is a function of executed steps only, not a proof."
+)
+LEVEL_NOTE = "float64, XLA CPU single thread; crash points inside the compiled loop are progress-tick granular; durable storage is a host copy"
 TOL = 1e-12
 
 
